@@ -45,6 +45,10 @@ const PUBVALUE: &str = "pub fn value() -> u8\n{\n\treturn: 1\n}\n";
 const PUBEXTVALUE: &str = "pub extern fn value() -> u8\n{\n\treturn: 2\n}\n";
 const MAINPUBVALUE: &str = "pub fn value() -> u8\n{\n\treturn: 3\n}\nfn main() -> u8\n{\n\treturn: value()\n}\n";
 const MAINPUBEXTVALUE: &str = "pub extern fn value() -> u8\n{\n\treturn: 4\n}\nfn main() -> u8\n{\n\treturn: value()\n}\n";
+// two modules joined by the linker instead of an import: a public head in one, the definition in the other,
+// and the same public head of a C function in both
+const HEADMAIN: &str = "pub extern fn abs(x: i32) -> i32;\npub extern fn helper(x: i32) -> i32;\n\nfn main() -> u8\n{\n\tvar r: i32 = abs(-3);\n\tvar h: i32 = helper(r);\n\tprint!(\"linked \", h, \"\\n\");\n\treturn: h as u8\n}\n";
+const HEADHELPER: &str = "pub extern fn abs(x: i32) -> i32;\n\npub extern fn helper(x: i32) -> i32\n{\n\tvar r: i32 = abs(x - 10);\n\treturn: r\n}\n";
 const UNRESOLVED: &str = "import \"vendor:nothing/here.pn\";\nimport \"core:text\";\n\nfn main() -> u8\n{\n\treturn: 1\n}\n";
 
 pub fn inputs() -> Vec<InputClass>
@@ -53,6 +57,8 @@ pub fn inputs() -> Vec<InputClass>
 		InputClass { name: "valid, one file", files: vec![("ok.pn", OK)], missing: false, link_conflict: false, program: Some(("hi\n", 7)) },
 		InputClass { name: "valid, two files with an import", files: vec![("main.pn", MAIN2), ("lib.pn", LIB)], missing: false, link_conflict: false, program: Some(("two 3\n", 3)) },
 		InputClass { name: "valid, library first", files: vec![("lib.pn", LIB), ("main.pn", MAIN2)], missing: false, link_conflict: false, program: Some(("two 3\n", 3)) },
+		InputClass { name: "valid, two files joined by public heads", files: vec![("headmain.pn", HEADMAIN), ("headhelper.pn", HEADHELPER)], missing: false, link_conflict: false, program: Some(("linked 7\n", 7)) },
+		InputClass { name: "valid, two files joined by public heads, definition first", files: vec![("headhelper.pn", HEADHELPER), ("headmain.pn", HEADMAIN)], missing: false, link_conflict: false, program: Some(("linked 7\n", 7)) },
 		InputClass { name: "valid with a lint", files: vec![("lint.pn", LINT)], missing: false, link_conflict: false, program: Some(("", 44)) },
 		InputClass { name: "lexical error", files: vec![("lex.pn", LEXERR)], missing: false, link_conflict: false, program: None },
 		InputClass { name: "type errors", files: vec![("type.pn", TYPEERR)], missing: false, link_conflict: false, program: None },
@@ -591,6 +597,13 @@ fn judge(c: &Case, w: &mut WorkerCtx)
 			run.stub_log.iter().map(|(n, a, s)| (n.clone(), a.clone(), s.len())).collect::<Vec<_>>()
 		)
 	};
+	// the valid input classes are valid by construction (plain documented programs with a pinned output):
+	// a tool that cannot compile them does not show "the program's exit status"
+	if input.program.is_some() && !compile_ok
+	{
+		let codes = lib.as_ref().map(|l| l.codes()).unwrap_or_default();
+		w.result.violation(&format!("valid-input-rejected:{}:E{}", input.name, codes.first().copied().unwrap_or(0)), 1, &|| c.to_json(), || format!("{}: the input class is valid by construction but the compilation fails with {codes:?}", c.describe()));
+	}
 	let kind = if input.missing { "missing file" } else if input.link_conflict { "link conflict" } else if compile_ok { "valid" } else { "invalid" };
 	let mut ok = true;
 	let mut violation = |w: &mut WorkerCtx, sig: String, detail: String| {
